@@ -120,6 +120,10 @@ func (u *Unmarshaler) fillMap(fieldType reflect.Type, value reflect.Value, mapVa
 		return errValueNotSettable
 	}
 
+	if fieldType.Kind() != reflect.Map {
+		return errTypeMismatch
+	}
+
 	fieldKeyType := fieldType.Key()
 	fieldElemType := fieldType.Elem()
 	targetValue, err := u.generateMap(fieldKeyType, fieldElemType, mapValue)
@@ -161,11 +165,19 @@ func (u *Unmarshaler) fillSlice(fieldType reflect.Type, value reflect.Value, map
 		return errValueNotSettable
 	}
 
+	if fieldType.Kind() != reflect.Slice || value.Kind() != reflect.Slice {
+		return errTypeMismatch
+	}
+
 	baseType := fieldType.Elem()
 	baseKind := baseType.Kind()
 	dereffedBaseType := Deref(baseType)
 	dereffedBaseKind := dereffedBaseType.Kind()
 	refValue := reflect.ValueOf(mapValue)
+	if refValue.Kind() != reflect.Slice {
+		return errTypeMismatch
+	}
+
 	if refValue.IsNil() {
 		return nil
 	}
@@ -186,8 +198,13 @@ func (u *Unmarshaler) fillSlice(fieldType reflect.Type, value reflect.Value, map
 		valid = true
 		switch dereffedBaseKind {
 		case reflect.Struct:
+			ithMap, ok := ithValue.(map[string]any)
+			if !ok {
+				return errTypeMismatch
+			}
+
 			target := reflect.New(dereffedBaseType)
-			if err := u.Unmarshal(ithValue.(map[string]any), target.Interface()); err != nil {
+			if err := u.Unmarshal(ithMap, target.Interface()); err != nil {
 				return err
 			}
 
@@ -233,6 +250,9 @@ func (u *Unmarshaler) fillSliceFromString(fieldType reflect.Type, value reflect.
 	baseFieldType := Deref(fieldType.Elem())
 	baseFieldKind := baseFieldType.Kind()
 	conv := reflect.MakeSlice(reflect.SliceOf(baseFieldType), len(slice), cap(slice))
+	if !conv.Type().AssignableTo(value.Type()) {
+		return errTypeMismatch
+	}
 
 	for i := 0; i < len(slice); i++ {
 		if err := u.fillSliceValue(conv, i, baseFieldKind, slice[i]); err != nil {
@@ -253,13 +273,22 @@ func (u *Unmarshaler) fillSliceValue(slice reflect.Value, index int,
 	case string:
 		return setValue(baseKind, ithVal, v)
 	case map[string]any:
+		if ithVal.Kind() != reflect.Map {
+			return errTypeMismatch
+		}
+
 		return u.fillMap(ithVal.Type(), ithVal, value)
 	default:
+		if value == nil {
+			return errTypeMismatch
+		}
+
 		// don't need to consider the difference between int, int8, int16, int32, int64,
 		// uint, uint8, uint16, uint32, uint64, because they're handled as json.Number.
 		if ithVal.Kind() == reflect.Ptr {
 			baseType := Deref(ithVal.Type())
-			if baseType.Kind() != reflect.TypeOf(value).Kind() {
+			valueType := reflect.TypeOf(value)
+			if baseType.Kind() != valueType.Kind() || !valueType.AssignableTo(baseType) {
 				return errTypeMismatch
 			}
 
@@ -269,7 +298,8 @@ func (u *Unmarshaler) fillSliceValue(slice reflect.Value, index int,
 			return nil
 		}
 
-		if ithVal.Kind() != reflect.TypeOf(value).Kind() {
+		valueType := reflect.TypeOf(value)
+		if ithVal.Kind() != valueType.Kind() || !valueType.AssignableTo(ithVal.Type()) {
 			return errTypeMismatch
 		}
 
@@ -308,6 +338,10 @@ func (u *Unmarshaler) generateMap(keyType, elemType reflect.Type, mapValue any) 
 	}
 
 	refValue := reflect.ValueOf(mapValue)
+	if refValue.Kind() != reflect.Map || !refValue.Type().Key().AssignableTo(keyType) {
+		return emptyValue, errTypeMismatch
+	}
+
 	targetValue := reflect.MakeMapWithSize(mapType, refValue.Len())
 	fieldElemKind := elemType.Kind()
 	dereffedElemType := Deref(elemType)
@@ -316,6 +350,9 @@ func (u *Unmarshaler) generateMap(keyType, elemType reflect.Type, mapValue any) 
 	for _, key := range refValue.MapKeys() {
 		keythValue := refValue.MapIndex(key)
 		keythData := keythValue.Interface()
+		if fieldElemKind == reflect.Ptr && dereffedElemKind != reflect.Struct {
+			return emptyValue, errTypeMismatch
+		}
 
 		switch dereffedElemKind {
 		case reflect.Slice:
@@ -515,7 +552,12 @@ func (u *Unmarshaler) processFieldNotFromString(fieldType reflect.Type, value re
 	case valueKind == reflect.String && typeKind == reflect.Slice:
 		return u.fillSliceFromString(fieldType, value, mapValue)
 	case valueKind == reflect.String && derefedFieldType == durationType:
-		return fillDurationValue(fieldType.Kind(), value, mapValue.(string))
+		dur, ok := mapValue.(string)
+		if !ok {
+			return newTypeMismatchError(fullName)
+		}
+
+		return fillDurationValue(fieldType.Kind(), value, dur)
 	default:
 		return u.processFieldPrimitive(fieldType, value, mapValue, opts, fullName)
 	}
@@ -746,7 +788,7 @@ func (u *Unmarshaler) processNamedFieldWithValue(fieldType reflect.Type, value r
 
 			options := opts.options()
 			if len(options) > 0 {
-				if !stringx.Contains(options, mapValue.(string)) {
+				if !stringx.Contains(options, Repr(mapValue)) {
 					return fmt.Errorf(`错误：字段 "%s" 的值 "%s" 未定义在选项 "%v" 中`,
 						key, vp, options)
 				}
